@@ -1,6 +1,7 @@
 package main
 
 import (
+	"errors"
 	"fmt"
 	"io"
 
@@ -50,7 +51,16 @@ type rscenario struct {
 	// SkipEmptyCtl: a control frame without payload is neither read nor discarded before the next
 	// NextFrame (there is nothing to receive; wsutil.ControlHandler does not read an empty payload)
 	SkipEmptyCtl bool `json:"skipEmptyCtl"`
-	stream       []byte
+	// CbRead: what the OnIntermediate callback reads of the control payload: 0 everything (until
+	// EOF), k > 0 one Read of at most k bytes, -1 nothing.  Whatever it leaves is the reader's to drop.
+	CbRead int `json:"cbRead"`
+	// ContRead: the OnContinuation callback takes up to k bytes of the continuation frame's payload
+	// out of its reader with one Read (0: none).  These bytes belong to the message all the same.
+	ContRead int `json:"contRead"`
+	// ContErr k > 0: the k-th call of the OnContinuation callback returns an error.  The caller gets
+	// that error, gives the message up with Discard() and goes on with the next one.
+	ContErr int `json:"contErr"`
+	stream  []byte
 }
 
 // fspec is what generators write; build() lays the frames out in a stream.
@@ -160,6 +170,8 @@ func newRev(ev string) rev {
 }
 
 // rerr classifies an error into (kind, rule).
+var errCallback = errors.New("refused by the application's callback")
+
 func rerr(err error) (string, string) {
 	switch err {
 	case nil:
@@ -178,6 +190,8 @@ func rerr(err error) (string, string) {
 		return "no_frame_advance", ""
 	case wsflate.ErrUnexpectedCompressionBit:
 		return "protocol", "compression_bit"
+	case errCallback:
+		return "callback", ""
 	}
 	if _, ok := err.(wsutil.ClosedError); ok {
 		return "closed", ""
@@ -279,15 +293,38 @@ func runReader(sc *rscenario) (evs []interface{}) {
 			rd.Extensions = []wsutil.RecvExtension{&ms}
 		}
 		rd.OnIntermediate = func(h ws.Header, r io.Reader) error {
-			b, err := io.ReadAll(r)
+			var b []byte
+			var err error
+			switch {
+			case sc.CbRead == 0:
+				b, err = io.ReadAll(r)
+			case sc.CbRead > 0:
+				b = make([]byte, sc.CbRead)
+				var n int
+				n, err = r.Read(b)
+				b = b[:n]
+			}
 			k, _ := rerr(err)
 			cbs = append(cbs, rcb{"intermediate", hdrOf(h), vh.Ints(b), k})
 			return nil
 		}
+		contCalls := 0
 		rd.OnContinuation = func(h ws.Header, r io.Reader) error {
-			cbs = append(cbs, rcb{"continuation", hdrOf(h), []int{}, "nil"})
+			b := []byte{}
+			if sc.ContRead > 0 {
+				b = make([]byte, sc.ContRead)
+				n, _ := r.Read(b)
+				b = b[:n]
+			}
+			contCalls++
+			if contCalls == sc.ContErr {
+				cbs = append(cbs, rcb{"continuation", hdrOf(h), vh.Ints(b), "refused"})
+				return errCallback
+			}
+			cbs = append(cbs, rcb{"continuation", hdrOf(h), vh.Ints(b), "nil"})
 			return nil
 		}
+
 		take := func() []rcb {
 			c := cbs
 			cbs = nil
@@ -295,6 +332,15 @@ func runReader(sc *rscenario) (evs []interface{}) {
 				c = []rcb{}
 			}
 			return c
+		}
+		// giveUp: after the callback's error the caller drops the rest of the message
+		giveUp := func() bool {
+			err := rd.Discard()
+			e := newRev("Discard")
+			e.Cbs, e.Pulled = take(), src.Pos
+			e.setErr(err)
+			evs = append(evs, e)
+			return err == nil
 		}
 		idle, lastPulled := 0, 0
 		dataPos := 0 // data-numbering position of the next byte (harness projection for coded payloads)
@@ -314,6 +360,13 @@ func runReader(sc *rscenario) (evs []interface{}) {
 			e.Hdr, e.Cbs, e.Pulled = hdrOf(hdr), take(), src.Pos
 			e.setErr(err)
 			evs = append(evs, e)
+			if err == errCallback {
+				frag = false
+				if giveUp() {
+					continue
+				}
+				break
+			}
 			if err != nil {
 				break
 			}
@@ -379,6 +432,12 @@ func runReader(sc *rscenario) (evs []interface{}) {
 				evs = append(evs, e)
 				if err == io.EOF {
 					frag = false
+					stop = true
+				} else if err == errCallback {
+					frag = false
+					if !giveUp() {
+						return evs
+					}
 					stop = true
 				} else if err != nil {
 					return evs
